@@ -68,7 +68,10 @@ def cases(draw):
         case["prior_t"] = draw(st.floats(0.3, 6.0))
     if draw(st.integers(0, 3)) == 0:
         case["new_print"] = True       # a previous print ended elsewhere; the state was reset (PRINT_STARTED), the handlers live on
-    case["spell"] = draw(st.sampled_from(["plain", "plain", "compact"]))
+    case["spell"] = draw(st.sampled_from(["plain", "plain", "compact", "packed_e"]))
+    case["many"] = draw(st.sampled_from([0] * 50 + [140, 560]))           # a long print before, on the same handlers
+    if not case.get("inch") and draw(st.integers(0, 5)) == 0:
+        case["switch_at_start"] = True      # the tool is positioned in millimetres, then G20, then the arc at once
     if form == "IJ":
         case["i"], case["j"] = cx - sx, cy - sy
     else:
@@ -114,9 +117,52 @@ def run_case(case, strict=False):  # noqa: C901  pylint: disable=too-many-branch
         flt.gcode("G20")
         unit = 25.4
         cl.add("inch")
-    flt.gcode("G1 X%r Y%r Z0.2 F3000" % (case["sx"], case["sy"]))
+    if case.get("switch_at_start"):
+        # positioned in mm at the point whose inch coordinates are (sx, sy) - up to the 6 decimals written - then G20
+        cl.add("unit_switch_right_before_arc")
+        mx, my = fmt6(case["sx"] * 25.4), fmt6(case["sy"] * 25.4)
+        flt.gcode("G1 X%s Y%s Z0.2 F3000" % (mx, my))
+        flt.gcode("G20")
+        unit = 25.4
+        case = dict(case, sx=float(mx) / 25.4, sy=float(my) / 25.4, inch=True, full=False if not case.get("full") else True)
+        if case.get("full"):
+            case["ex"], case["ey"] = case["sx"], case["sy"]
+    else:
+        flt.gcode("G1 X%r Y%r Z0.2 F3000" % (case["sx"], case["sy"]))
     sx, sy, ex, ey, cw = case["sx"], case["sy"], case["ex"], case["ey"], case["cw"]
     h = flt.handlers
+    if case.get("many") and not case.get("full"):
+        # the arc under test has been planned once, then many distinct other arcs and moves, long ago
+        cl.add("after_many_commands")
+        try:
+            if case["form"] == "R":
+                pi_, pj_ = h.computeArcCenterOffsets(ex, ey, case["R"], cw)
+            else:
+                pi_, pj_ = case["i"], case["j"]
+            if pi_ or pj_:
+                h.planArc(ex, ey, pi_, pj_, cw)
+            words_ = (" X%s Y%s I%s J%s" % (fmt6(ex), fmt6(ey), fmt6(pi_), fmt6(pj_)))
+            flt.gcode(("G2" if cw else "G3") + words_)
+            for n in range(case["many"]):
+                flt.gcode("G1 X%d.%02d Y%d" % (n % 40, n % 100, n // 40))
+                flt.gcode("G2 X%d.%02d Y%d I%d.5 J0" % (n % 40 + 3, n % 100, n // 40, 1 + n % 3))
+                h.planArc(n * 0.25, 5.0, 2.0 + (n % 7), 1.0, bool(n % 2))
+        except Exception:  # pylint: disable=broad-except
+            pass
+        # the very command of long ago once more, from the same start point: it must end where it says
+        try:
+            flt.gcode("G1 X%s Y%s" % (fmt6(sx), fmt6(sy)))
+            flt.gcode(("G2" if cw else "G3") + words_)
+            pos_ = flt.state.position
+            gx, gy = pos_.X_AXIS.nativeToLogical(), pos_.Y_AXIS.nativeToLogical()
+            if (pi_ or pj_) and (abs(gx - float(fmt6(ex))) > 1e-6 * max(1.0, abs(ex)) or abs(gy - float(fmt6(ey))) > 1e-6 * max(1.0, abs(ey))):
+                bad("c16_end_point", "after %d other commands the arc %r ends at (%r,%r) for the filter, commanded (%s,%s)" % (
+                    case["many"] * 2, ("G2" if cw else "G3") + words_, gx, gy, fmt6(ex), fmt6(ey)))
+        except Exception as exc:  # pylint: disable=broad-except
+            bad("c16_exception", "repeating an arc after a long history raised %s: %s" % (type(exc).__name__, exc))
+        flt.gcode("G1 X%s Y%s" % (fmt6(sx), fmt6(sy)))
+        if float(fmt6(sx)) != sx or float(fmt6(sy)) != sy:
+            flt.gcode("G1 X%r Y%r" % (sx, sy))
     if case.get("prior_t") is not None:
         # history: identical arguments, different start (the end point lies on the circle about that start + (i,j) as well)
         cl.add("same_arguments_planned_before")
@@ -235,6 +281,9 @@ def run_case(case, strict=False):  # noqa: C901  pylint: disable=too-many-branch
             words = " X%s Y%s I%s J%s" % (repr(ex), repr(ey), repr(i), repr(j))
         if "e" not in words and "E" not in words:
             cmd = ("G2" if cw else "G3") + words
+            if case.get("spell") == "packed_e" and "R" not in words:
+                # no blanks at all and an E word right after the last number (G3X50Y70I0J10E2.5)
+                cmd = cmd.replace(" ", "") + "E2.5"
             if case.get("spell") == "compact":
                 # legal compact spelling: no leading zero ('.5', '-.25')
                 cmd = re.sub(r"(?<![0-9.])(-?)0\.(?=[0-9])", r"\1.", cmd)
